@@ -239,7 +239,9 @@ def retry_after_or(
         if retry_after is not None and math.isfinite(retry_after):
             sleep_s = max(0.0, float(retry_after))
             if jitter:
-                sleep_s += random.uniform(0.0, jitter)
+                jittered = sleep_s + random.uniform(0.0, jitter)
+                if math.isfinite(jittered):  # an unbounded jitter_s must not lose the hint
+                    sleep_s = jittered
         else:
             sleep_s = fallback_fn(ctx)
 
